@@ -317,7 +317,7 @@ pub fn check_model(spec: &LmSpec, l: &mut Local) {
 
 fn families(quick: bool) -> Vec<LmFamily> {
     let third = 1.0 / 3.0;
-    let coefs = vec![0.0, 1.0, -1.0, 2.5, -2.5, -0.0, 1e-7, 1e9, third];
+    let coefs = vec![0.0, 1.0, -1.0, 2.5, -2.5, -0.0, 1e-7, 1e9, third, 9.87654321e-7, -1.23456789e18];
     let doms = vec![
         Dom::Free,
         Dom::NonNeg,
@@ -345,10 +345,10 @@ fn families(quick: bool) -> Vec<LmFamily> {
         n: 2,
         m: 1,
         doms: vec![Dom::NonNeg],
-        coefs: if quick { vec![0.0, -1.0, 2.5, -0.0, 1e-7, third] } else { coefs.clone() },
+        coefs: if quick { vec![0.0, -1.0, 2.5, -0.0, 1e-7, third, 9.87654321e-7, -1.23456789e18] } else { coefs.clone() },
         rhss: vec![0.0, -1.5, 1e9, -0.0, third],
         rels: vec![Rel::Le, Rel::Ge, Rel::Eq],
-        objs: if quick { vec![0.0, 1.0, -2.5, 1e-7] } else { coefs.clone() },
+        objs: if quick { vec![0.0, 1.0, -2.5, 1e-7, -1.23456789e18] } else { coefs.clone() },
         senses: vec![Sense::Min, Sense::Max, Sense::Satisfy],
         offsets: vec![0.0, 2.5, -1.0, -0.0],
         named: true,
